@@ -2,12 +2,12 @@
    The schedule theorem is parser independent (first theorem); per parser it needs the one-step
    property ExtOK, proved here for: SkipQuoted, ParseCallIDVal, ParseUIntVal / ParseExpiresVal,
    ParseCLenVal, ParseCSeqVal, ParseNameAddrPVal for every header kind (= ParseFromVal,
-   ParseOneContact), ParseOnePAI, ParseAllContactValues, ParseAllPAIValues, ParseTokenParam for
+   ParseOneContact), ParseOnePAI, ParseAllContactValues, ParseAllPAIValues, ParseFLine, ParseTokenParam for
    every flag set without POptInputEndF (with that flag every prefix is by definition the whole
    input).  For each: every buffer, start offset, object state (so also resumed states) and chunk
-   schedule.  PARTIAL: not yet discharged for ParseFLine, ParseHdrLine, ParseHeaders,
+   schedule.  PARTIAL: not yet discharged for ParseHdrLine, ParseHeaders,
    ParseAllURIParams, ParseAllURIHdrs (correspondence run + resume oracle only). *)
-From Sipsp Require Import Harness Resume Ext ExtLeaf ExtCSeq ExtTok ExtNameAddr ExtNested ExtLists.
+From Sipsp Require Import Harness Resume Ext ExtLeaf ExtCSeq ExtTok ExtNameAddr ExtNested ExtLists ExtFLine.
 Theorem C02_every_schedule_from_one_step :
   forall (S : Type) (P : list byte -> N -> S -> res S) (obs : S -> list Z) (Inv : N -> S -> Prop),
   ExtOK P obs Inv ->
@@ -54,3 +54,7 @@ Proof. exact (fun b k s0 cuts => resume_schedule _ _ _ pais_ExtOK b k s0 cuts I)
 Theorem C02_token_param : forall flags (Hie : tf_ie (tp_decode flags) = false), forall b k s0 cuts, k <= nnat (length b) -> sorted_from (N.to_nat k) cuts ->
   agrees (parse_tokparam flags) obs_tokparam b cuts (chunked_trace (parse_tokparam flags) b cuts k s0) k s0.
 Proof. exact (fun flags Hie b k s0 cuts => resume_schedule _ _ _ (tokparam_ExtOK flags Hie) b k s0 cuts I). Qed.
+
+Theorem C02_first_line : forall b k s0 cuts, k <= nnat (length b) -> sorted_from (N.to_nat k) cuts ->
+  agrees parse_fline obs_fline b cuts (chunked_trace parse_fline b cuts k s0) k s0.
+Proof. exact (fun b k s0 cuts => resume_schedule _ _ _ fline_ExtOK b k s0 cuts I). Qed.
